@@ -216,6 +216,24 @@ FilesAreReported(files, p, dry, nowrites) ==
   files = IF dry \/ nowrites \/ Fmt = "null" THEN {} ELSE StatusSet(p, {"compiled", "borrowed"})
 IndexOnlyWhenAsked(idx, bi, dry) == idx => bi /\ ~dry
 
+\* ---------------------------------------------------------------- what the stored OID index must say (C18, end to end)
+\* OIDs the fixture modules define (the renderer writes them this way: see checks/clitools.module_text)
+Ent == <<1, 3, 6, 1, 4, 1>>
+AId == Ent \o <<4710>>
+BId == Ent \o <<4711>>
+BRootOf(wd) == (IF wd.imp \in {"BA", "both"} THEN AId ELSE BId) \o <<1>>
+ARootOf(wd) == (IF wd.imp \in {"AB", "both"} THEN BRootOf(wd) ELSE AId) \o <<1>>
+SmiOids == {<<1, 3>>, <<1, 3, 6>>, <<1, 3, 6, 1>>, <<1, 3, 6, 1, 1>>, <<1, 3, 6, 1, 2>>, <<1, 3, 6, 1, 2, 1>>, <<1, 3, 6, 1, 2, 1, 10>>,
+            <<1, 3, 6, 1, 3>>, <<1, 3, 6, 1, 4>>, <<1, 3, 6, 1, 4, 1>>, <<1, 3, 6, 1, 5>>, <<1, 3, 6, 1, 6>>, <<1, 3, 6, 1, 6, 1>>,
+            <<1, 3, 6, 1, 6, 2>>, <<1, 3, 6, 1, 6, 3>>, <<0, 0>>}
+DefinesOf(wd, m) == CASE m = "AA-MIB" -> {AId, ARootOf(wd)} [] m = "BB-MIB" -> {BId, BRootOf(wd)}
+                      [] m = "SNMPv2-SMI" -> SmiOids [] OTHER -> {}
+IsPrefixOid(p, o) == Len(p) <= Len(o) /\ SubSeq(o, 1, Len(p)) = p
+\* idx: set of [oid, mods] entries of the "oids" section.  A module is listed only under an OID it defines, and every OID of
+\* a module stored in this run is covered by an entry that lists the module (component-wise prefix)
+IndexOnlyDefines(idx, wd) == \A e \in idx : \A m \in e.mods : e.oid \in DefinesOf(wd, m)
+IndexCovers(idx, wd, stored) == \A m \in stored : \A o \in DefinesOf(wd, m) : \E e \in idx : m \in e.mods /\ IsPrefixOid(e.oid, o)
+
 Done == dpc = "done"
 P_ExitZeroOnlyIfClean == Done /\ w.usage = "none" => ExitZeroOnlyIfClean(exitc, proc)
 P_Usage64 == Done => Usage64(w.usage, exitc, Written(log), idxw, IF log = <<>> /\ proc = <<>> THEN 0 ELSE 1)
